@@ -1,7 +1,8 @@
 package c08
 
 // C08 — x/hard money market.  Histories of MsgDeposit / MsgWithdraw / MsgBorrow /
-// MsgRepay / MsgLiquidate (ValidateBasic + the real msg server), price changes through
+// MsgRepay / MsgLiquidate (ValidateBasic + the real msg server), governance parameter changes
+// (k.SetParams; the next begin block syncs the money-market store), price changes through
 // the real pricefeed keeper, plain bank transfers to the module account and begin blocks
 // (hard.BeginBlocker at a later block time) on a fresh app.TestApp, with monitors stating
 // the property on the implementation and Coq case files for Model/Hard.v.
@@ -50,7 +51,7 @@ type Coin struct {
 }
 
 type Op struct {
-	Kind  string   `json:"kind"` // deposit | withdraw | borrow | repay | liquidate | price | donate | block
+	Kind  string   `json:"kind"` // deposit | withdraw | borrow | repay | liquidate | price | donate | block | params
 	A     int      `json:"a,omitempty"`
 	B     int      `json:"b,omitempty"`
 	Coins []Coin   `json:"coins,omitempty"`
@@ -59,6 +60,7 @@ type Op struct {
 	T     int64    `json:"t,omitempty"`  // block: seconds to advance
 	Fs    []string `json:"fs,omitempty"` // block: oracle factors (recomputed from the implementation at execution)
 	X2    string   `json:"tag,omitempty"` // generator tag (which mixture component produced the amount)
+	Mk    []*MarketCfg `json:"mk,omitempty"` // params: the new money markets by denom index (null = removed)
 }
 
 type MarketCfg struct {
@@ -97,6 +99,11 @@ type world struct {
 	height int64
 	now    time.Time
 	cf     []*big.Int
+	cur     []*MarketCfg // money markets of the params as last written with SetParams
+	inForce []*MarketCfg // the params as of the last successful begin block
+	dirty   bool         // params changed since the last successful begin block
+	prevForce     []*MarketCfg // the params in force before the last successful begin block
+	keeperChanged bool         // some market's keeper share alone was changed by governance
 }
 
 func dec(s string) sdk.Dec { return sdk.MustNewDecFromStr(s) }
@@ -107,6 +114,25 @@ func bigOf(s string) *big.Int {
 		panic("bad integer " + s)
 	}
 	return x
+}
+
+func mkMarket(d int, m MarketCfg) hardtypes.MoneyMarket {
+	return hardtypes.NewMoneyMarket(denoms[d],
+		hardtypes.NewBorrowLimit(m.HasMax, dec(m.Max), dec(m.LTV)),
+		denoms[d]+":usd", sdkmath.NewIntFromBigInt(bigOf(m.CF)),
+		hardtypes.NewInterestRateModel(dec(m.Base), dec(m.Mult), dec(m.Kink), dec(m.Jump)),
+		dec(m.Reserve), dec(m.Keeper))
+}
+
+func copyMarkets(ms []*MarketCfg) []*MarketCfg {
+	out := make([]*MarketCfg, len(ms))
+	for i, m := range ms {
+		if m != nil {
+			c := *m
+			out[i] = &c
+		}
+	}
+	return out
 }
 
 func setup(cfg Cfg) *world {
@@ -133,11 +159,7 @@ func setup(cfg Cfg) *world {
 	var pms []pftypes.Market
 	for d := 0; d < nMkt; d++ {
 		m := cfg.Markets[d]
-		mms = append(mms, hardtypes.NewMoneyMarket(denoms[d],
-			hardtypes.NewBorrowLimit(m.HasMax, dec(m.Max), dec(m.LTV)),
-			denoms[d]+":usd", sdkmath.NewIntFromBigInt(bigOf(m.CF)),
-			hardtypes.NewInterestRateModel(dec(m.Base), dec(m.Mult), dec(m.Kink), dec(m.Jump)),
-			dec(m.Reserve), dec(m.Keeper)))
+		mms = append(mms, mkMarket(d, m))
 		pms = append(pms, pftypes.NewMarket(denoms[d]+":usd", denoms[d], "usd", []sdk.AccAddress{}, true))
 	}
 	hgs := hardtypes.NewGenesisState(hardtypes.NewParams(mms, dec(cfg.MinBorrow)),
@@ -155,7 +177,10 @@ func setup(cfg Cfg) *world {
 	for d := 0; d < nMkt; d++ {
 		w.cf = append(w.cf, bigOf(cfg.Markets[d].CF))
 		w.setPrice(w.ctx, d, dec(cfg.Prices[d]))
+		m := cfg.Markets[d]
+		w.cur = append(w.cur, &m)
 	}
+	w.inForce = copyMarkets(w.cur)
 	return w
 }
 
@@ -192,6 +217,7 @@ type snap struct {
 	tsup   []*big.Int
 	tbor   []*big.Int
 	tres   []*big.Int
+	mkts   []string // Coq rendering of the stored money market per denom ("None" when absent)
 	panics string
 }
 
@@ -302,6 +328,19 @@ func (w *world) snap() *snap {
 	tb, _ := w.hk.GetBorrowedCoins(ctx)
 	tr, _ := w.hk.GetTotalReserves(ctx)
 	s.tsup, s.tbor, s.tres = vecOf(ts), vecOf(tb), vecOf(tr)
+	for d := 0; d < nD; d++ {
+		if m, ok := w.hk.GetMoneyMarket(ctx, denoms[d]); ok {
+			hm := big.NewInt(0)
+			if m.BorrowLimit.HasMaxLimit {
+				hm = big.NewInt(1)
+			}
+			s.mkts = append(s.mkts, "(Some "+ZList([]*big.Int{m.ConversionFactor.BigInt(), m.BorrowLimit.LoanToValue.BigInt(), hm, m.BorrowLimit.MaximumLimit.BigInt(),
+				m.ReserveFactor.BigInt(), m.KeeperRewardPercentage.BigInt(), m.InterestRateModel.BaseRateAPY.BigInt(), m.InterestRateModel.BaseMultiplier.BigInt(),
+				m.InterestRateModel.Kink.BigInt(), m.InterestRateModel.JumpMultiplier.BigInt()})+")")
+		} else {
+			s.mkts = append(s.mkts, "None")
+		}
+	}
 	return s
 }
 
@@ -340,7 +379,13 @@ func (w *world) oracleFactors(newTime time.Time) []*big.Int {
 				return
 			}
 			tr, _ := w.hk.GetTotalReserves(w.ctx)
-			mm, _ := w.hk.GetMoneyMarket(w.ctx, denoms[d])
+			mm, inStore := w.hk.GetMoneyMarket(w.ctx, denoms[d])
+			if !inStore {
+				if w.cur[d] == nil {
+					return
+				}
+				mm = mkMarket(d, *w.cur[d])
+			}
 			apy, err := hardkeeper.CalculateBorrowRate(mm.InterestRateModel, sdk.NewDecFromInt(cash), sdk.NewDecFromInt(borrowed), sdk.NewDecFromInt(tr.AmountOf(denoms[d])))
 			if err != nil {
 				out[d] = big.NewInt(-1)
@@ -370,10 +415,32 @@ func (w *world) exec(op *Op) (Class, error) {
 		w.now = nt
 		w.height++
 		w.ctx = NewCtx(w.tApp, w.height, w.now)
-		return Atomically(w.ctx, func(ctx sdk.Context) error {
+		cls, err := Atomically(w.ctx, func(ctx sdk.Context) error {
 			hard.BeginBlocker(ctx, w.hk)
 			return nil
 		})
+		if cls == ClassOk {
+			w.prevForce = w.inForce
+			w.inForce = copyMarkets(w.cur)
+			w.dirty = false
+		}
+		return cls, err
+	case "params":
+		var mms hardtypes.MoneyMarkets
+		for d := 0; d < nMkt; d++ {
+			if op.Mk[d] != nil {
+				mms = append(mms, mkMarket(d, *op.Mk[d]))
+			}
+		}
+		cls, err := Atomically(w.ctx, func(ctx sdk.Context) error {
+			w.hk.SetParams(ctx, hardtypes.NewParams(mms, dec(w.cfg.MinBorrow)))
+			return nil
+		})
+		if cls == ClassOk {
+			w.cur = copyMarkets(op.Mk)
+			w.dirty = true
+		}
+		return cls, err
 	case "price":
 		return Atomically(w.ctx, func(ctx sdk.Context) error {
 			w.setPrice(ctx, op.D, sdk.NewDecFromBigIntWithPrec(bigOf(op.X), 18))
@@ -498,6 +565,15 @@ func coqOp(op Op, now time.Time) string {
 		return fmt.Sprintf("SetPrice %s %s", Nat(op.D), Z(bigOf(op.X)))
 	case "donate":
 		return fmt.Sprintf("Donate %s %s %s", Nat(op.A), Nat(op.D), Z(bigOf(op.X)))
+	case "params":
+		mk := make([]string, nD)
+		for d := 0; d < nD; d++ {
+			mk[d] = "None"
+			if d < nMkt && op.Mk[d] != nil {
+				mk[d] = coqMarket(*op.Mk[d])
+			}
+		}
+		return "SetParams " + List(mk)
 	}
 	fs := make([]string, len(op.Fs))
 	for i, f := range op.Fs {
@@ -506,8 +582,13 @@ func coqOp(op Op, now time.Time) string {
 	return fmt.Sprintf("BeginBlock %s %s", Zi(now.Unix()), List(fs))
 }
 
+func coqMarket(m MarketCfg) string {
+	return fmt.Sprintf("(Some (mkMarket %s %s %s %s %s %s %s %s %s %s))", Z(bigOf(m.CF)), Z(decMant(m.LTV)), Bool(m.HasMax),
+		Z(decMant(m.Max)), Z(decMant(m.Reserve)), Z(decMant(m.Keeper)), Z(decMant(m.Base)), Z(decMant(m.Mult)), Z(decMant(m.Kink)), Z(decMant(m.Jump)))
+}
+
 func coqObs(cls Class, b, a *snap) string {
-	var dbal, ddep, dbor, dsdep, dsbor, dsf, dbf, dpv, dts, dtb, dtr []string
+	var dbal, ddep, dbor, dsdep, dsbor, dsf, dbf, dpv, dts, dtb, dtr, dmk []string
 	for x := 0; x < nAcc; x++ {
 		for d := 0; d < nD; d++ {
 			if b.bal[x][d].Cmp(a.bal[x][d]) != 0 {
@@ -548,9 +629,12 @@ func coqObs(cls Class, b, a *snap) string {
 		if b.tres[d].Cmp(a.tres[d]) != 0 {
 			dtr = append(dtr, fmt.Sprintf("(%s, %s)", Nat(d), Z(a.tres[d])))
 		}
+		if b.mkts[d] != a.mkts[d] {
+			dmk = append(dmk, fmt.Sprintf("(%s, %s)", Nat(d), a.mkts[d]))
+		}
 	}
-	return fmt.Sprintf("mkObs %s %s %s %s %s %s %s %s %s %s %s %s", cls.Coq(), List(dbal), List(ddep), List(dbor),
-		List(dsdep), List(dsbor), List(dsf), List(dbf), List(dpv), List(dts), List(dtb), List(dtr))
+	return fmt.Sprintf("mkObs %s %s %s %s %s %s %s %s %s %s %s %s %s", cls.Coq(), List(dbal), List(ddep), List(dbor),
+		List(dsdep), List(dsbor), List(dsf), List(dbf), List(dpv), List(dts), List(dtb), List(dtr), List(dmk))
 }
 
 func decMant(s string) *big.Int { return dec(s).BigInt() }
@@ -562,11 +646,9 @@ func (w *world) coqEnvState(s *snap) string {
 			mk[d] = "None"
 			continue
 		}
-		m := w.cfg.Markets[d]
-		mk[d] = fmt.Sprintf("(Some (mkMarket %s %s %s %s %s %s %s %s %s %s))", Z(bigOf(m.CF)), Z(decMant(m.LTV)), Bool(m.HasMax),
-			Z(decMant(m.Max)), Z(decMant(m.Reserve)), Z(decMant(m.Keeper)), Z(decMant(m.Base)), Z(decMant(m.Mult)), Z(decMant(m.Kink)), Z(decMant(m.Jump)))
+		mk[d] = coqMarket(w.cfg.Markets[d])
 	}
-	env := fmt.Sprintf("(mk_env %s %s %s %s)", Nat(nD), Nat(nU), List(mk), Z(decMant(w.cfg.MinBorrow)))
+	env := fmt.Sprintf("(mk_env %s %s %s)", Nat(nD), Nat(nU), Z(decMant(w.cfg.MinBorrow)))
 	rows := make([]string, nAcc)
 	for a := 0; a < nAcc; a++ {
 		rows[a] = zl(s.bal[a])
@@ -575,7 +657,7 @@ func (w *world) coqEnvState(s *snap) string {
 	for d := 0; d < nD; d++ {
 		pv[d] = optZ(s.prev[d])
 	}
-	st := fmt.Sprintf("(mk_state %s %s %s)", List(rows), zl(s.price), List(pv))
+	st := fmt.Sprintf("(mk_state %s %s %s %s)", List(rows), zl(s.price), List(pv), List(mk))
 	return env + "\n  " + st
 }
 
